@@ -1,6 +1,6 @@
 (* C17 — property theorems only: each restates the full statement and is closed by the lemma proved in Proofs/. *)
 From Coq Require Import ZArith List Bool.
-From NPS Require Import ListAux PySlice NumpySem Scatter BuildIdx XorBroadcast View Index Assign Reduce Scan RaOps Heap Hash HashRun BitArr RLE RLEOps RLE2d DataClass RowsSpec AssignSpec MapSpec Denote RLEMisc BinaryProof RL2Proof RL2Col RL2Ravel RL2Elem RL2Argmax MatrixDecode ColProof RL2ColSum RL2ColCounts RL2Intervals.
+From NPS Require Import ListAux PySlice NumpySem Scatter BuildIdx XorBroadcast View Index Assign Reduce Scan RaOps Heap Hash HashRun BitArr RLE RLEOps RLE2d DataClass RowsSpec AssignSpec MapSpec Denote RLEMisc BinaryProof RL2Proof RL2Col RL2Ravel RL2Elem RL2Argmax MatrixDecode ColProof RL2ColSum RL2ColCounts RL2Intervals RL2Range.
 Import ListNotations.
 Open Scope Z_scope.
 
@@ -127,3 +127,24 @@ Theorem C17_from_intervals_decode :
        map (fun se : Z * Z => indicator_row n value (fst se) (snd se)) (combine starts ends).
 Proof. exact from_intervals_decode. Qed.
 Print Assumptions C17_from_intervals_decode.
+
+Theorem C17_rl2_col_range_pos1_partial :
+  forall (rows : list (list Z * list Z)) (a b : Z),
+       0 <= a < b ->
+       Forall (fun p : list Z * list Z => canon Z (fst p) (snd p) /\ b <= zsum (fst p)) rows ->
+       exists y : rl2,
+         rl2_col_range (of_runs rows) {| sl_start := Some a; sl_stop := Some b; sl_step := None |} = Ok y /\
+         rl2_decode y = map (fun d : list Z => ztake (b - a) (zdrop a d)) (rl2_decode (of_runs rows)).
+Proof. exact rl2_col_range_pos1_partial. Qed.
+Print Assumptions C17_rl2_col_range_pos1_partial.
+
+Theorem C17_col_range_row_is_start_to_end :
+  forall (ev vs : list Z) (a b : Z),
+       strictly_increasing (0 :: ev) ->
+       length ev = length vs ->
+       0 <= a < b ->
+       b <= last (0 :: ev) 0 ->
+       col_range_row (Some a) (Some b) 1 (0 :: ev) vs =
+       Some (let S := start_to_end Z (0 :: ev, vs) a b in remove_empty_row (fst S) (snd S)).
+Proof. exact col_range_row_is_start_to_end. Qed.
+Print Assumptions C17_col_range_row_is_start_to_end.
